@@ -98,5 +98,93 @@ theorem matchHere_sound : ∀ (lits : List Str) (s : Str) (caps : List Str), lit
       · simp at hm
 
 
+/-- scanning candidates from the largest down: everything above `k` fails, `k` succeeds -/
+theorem findSome_rev_range {β : Type} (f : Nat → Option β) (m k : Nat) (v : β) (hk : k ≤ m)
+    (hfail : ∀ n, k < n → n ≤ m → f n = none) (hok : f k = some v) :
+    ((List.range (m + 1)).reverse).findSome? f = some v := by
+  induction m with
+  | zero =>
+    have : k = 0 := by omega
+    subst this
+    simp [List.range_succ, hok]
+  | succ m ih =>
+    rw [List.range_succ, List.reverse_append, List.reverse_singleton, List.singleton_append, List.findSome?_cons]
+    by_cases hkm : k = m + 1
+    · subst hkm; rw [hok]
+    · have hnone : f (m + 1) = none := hfail (m + 1) (by omega) (Nat.le_refl _)
+      rw [hnone]
+      exact ih (by omega) (fun n h1 h2 => hfail n h1 (by omega))
+
+theorem take_takeNonSpace_length (s : Str) : s.take (takeNonSpace s).length = takeNonSpace s := by
+  obtain ⟨t, ht⟩ := takeNonSpace_prefix s
+  have : s.take (takeNonSpace s).length = (takeNonSpace s ++ t).take (takeNonSpace s).length := by rw [ht]
+  rw [this, List.take_left']
+  rfl
+
+/-- the last star of a pattern takes the whole run of non-blank characters -/
+theorem matchHere_last_star (l s : Str) :
+    matchHere [l, []] s = if hasPrefix l s then some [takeNonSpace (s.drop l.length)] else none := by
+  simp only [matchHere]
+  split
+  · apply findSome_rev_range _ _ (takeNonSpace (s.drop l.length)).length _ (Nat.le_refl _)
+    · intro n h1 h2; omega
+    · simp [hasPrefix, take_takeNonSpace_length]
+  · rfl
+
+theorem takeNonSpace_append_left {u v : Str} (h : takeNonSpace (u ++ v) = u ++ v) : takeNonSpace v = v := by
+  induction u with
+  | nil => simpa using h
+  | cons c u ih =>
+    rw [List.cons_append] at h
+    unfold takeNonSpace at h
+    split at h
+    · simp at h
+    · simp only [List.cons.injEq, true_and] at h
+      exact ih h
+
+theorem splitStars_ne_nil (s : Str) : splitStars s ≠ [] := by
+  induction s with
+  | nil => simp [splitStars]
+  | cons c cs ih =>
+    unfold splitStars
+    split
+    · simp
+    · split <;> simp
+
+theorem splitStars_no_star (a : Str) (ha : '*' ∉ a) : splitStars a = [a] := by
+  induction a with
+  | nil => rfl
+  | cons c cs ih =>
+    have hc : c ≠ '*' := fun e => ha (e ▸ List.mem_cons_self)
+    have := ih (fun h => ha (List.mem_cons_of_mem _ h))
+    unfold splitStars
+    rw [this]
+    simp [hc]
+
+theorem splitStars_cons (c : Char) (cs : Str) :
+    splitStars (c :: cs) = match splitStars cs with
+      | [] => [[c]]
+      | h :: t => if c = '*' then [] :: h :: t else (c :: h) :: t := by
+  conv => lhs; unfold splitStars
+  rfl
+
+theorem splitStars_append_star (a r : Str) (ha : '*' ∉ a) : splitStars (a ++ '*' :: r) = a :: splitStars r := by
+  induction a with
+  | nil =>
+    rw [List.nil_append, splitStars_cons]
+    cases h : splitStars r with
+    | nil => exact absurd h (splitStars_ne_nil r)
+    | cons x xs => simp
+  | cons c cs ih =>
+    have hc : c ≠ '*' := fun e => ha (e ▸ List.mem_cons_self)
+    have := ih (fun h => ha (List.mem_cons_of_mem _ h))
+    rw [List.cons_append, splitStars_cons, this]
+    simp [hc]
+
+theorem splitStars_two (a b : Str) (ha : '*' ∉ a) (hb : '*' ∉ b) : splitStars (a ++ '*' :: b ++ ['*']) = [a, b, []] := by
+  have e : a ++ '*' :: b ++ ['*'] = a ++ '*' :: (b ++ '*' :: []) := by simp [List.append_assoc]
+  rw [e, splitStars_append_star a _ ha, splitStars_append_star b [] hb]
+  rfl
+
 end Proxy
 end Pike
